@@ -91,11 +91,13 @@ const attributeNameLength = 11
 // hold, so that a struct field or requested name that was shortened when the
 // file was written still finds its column.
 func attributeName(name string) string {
-	name = strings.ToLower(name)
+	// Cut first, as the file does (the cut may fall inside a multi-byte
+	// character), then fold the case of what is left, as getFieldIndices
+	// does with the stored name.
 	if len(name) > attributeNameLength {
 		name = name[:attributeNameLength]
 	}
-	return name
+	return strings.ToLower(name)
 }
 
 // DecodeRow decodes a shapefile row into a struct. The input
